@@ -95,4 +95,163 @@ func (*RingBuffer).ReverseRange
     invariant forall k in 0..cbcalls(): cbarg(k, 0) == rbAt(rb.buf, rb.cur, rb.full, rbLen(rb.buf, rb.cur, rb.full) - 1 - k)
     invariant forall k in 0..cbcalls(): cbres(k)
     decreases i + 1
+
+// ---------------------------------------------------------------------------
+// SortedSliceSet: the set of values of a strictly ascending slice.
+// memberOf / sortedStrict are declared with the slices contracts.
+
+// two sequences with the same elements at the same positions denote the
+// same set
+lemma sameSeqSameSet(s []byte, r []byte)
+  requires len(r) == len(s)
+  requires forall k in 0..len(r): r[k] == s[k]
+  ensures r_in_s: forall i in 0..len(r): memberOf(s, r[i])
+  ensures s_in_r: forall i in 0..len(s): memberOf(r, s[i])
+
+func NewSortedSliceSet
+  ensures created: set != nil && fresh(set) && sortedStrict(set.elems) && ref(set.elems) == ref(elems)
+
+// The set model is stated over indices: every element of the new slice is
+// accounted for by the old set (and v), and vice versa.
+lemma insertSet(s []byte, r []byte, pos int, v int)
+  requires sortedStrict(s) && 0 <= pos && pos <= len(s) && len(r) == len(s) + 1
+  requires forall i in 0..pos: lt(s[i], v)
+  requires forall i in pos..len(s): !lt(s[i], v)
+  requires !(pos < len(s) && s[pos] == v)
+  requires forall k in 0..pos: r[k] == s[k]
+  requires r[pos] == v
+  requires forall k in pos + 1..len(r): r[k] == s[k - 1]
+  requires forall k in pos..len(s): s[k] == r[k + 1]
+  ensures sorted: sortedStrict(r)
+  ensures only_old_and_v: forall i in 0..len(r): r[i] == v || memberOf(s, r[i])
+  ensures keeps_old: forall i in 0..len(s): memberOf(r, s[i])
+  ensures has_v: memberOf(r, v)
+
+lemma deleteSet(s []byte, r []byte, pos int, v int)
+  requires sortedStrict(s) && 0 <= pos && pos < len(s) && s[pos] == v && len(r) == len(s) - 1
+  requires forall k in 0..pos: r[k] == s[k]
+  requires forall k in pos..len(r): r[k] == s[k + 1]
+  requires forall k in pos + 1..len(s): s[k] == r[k - 1]
+  ensures sorted: sortedStrict(r)
+  ensures only_old: forall i in 0..len(r): r[i] != v && memberOf(s, r[i])
+  ensures keeps_others: forall i in 0..len(s): s[i] == v || memberOf(r, s[i])
+  ensures v_gone: !memberOf(r, v)
+
+func (*SortedSliceSet).Add
+  requires set != nil && sortedStrict(set.elems)
+  apply_exit insertSet(old(str(set.elems)), str(set.elems), i, v) when !ok
+  apply_exit sameSeqSameSet(old(str(set.elems)), str(set.elems)) when ok
+  ensures inv: sortedStrict(set.elems)
+  ensures grows_by_at_most_one: len(set.elems) <= old(len(set.elems)) + 1 && len(set.elems) >= old(len(set.elems))
+  ensures present_unchanged: local(ok) ==> set.elems == old(set.elems) && (forall k in 0..len(set.elems): set.elems[k] == old(set.elems[k]))
+  ensures only_v_new: !local(ok) ==> (forall k in 0..len(set.elems): set.elems[k] == v || (let x = set.elems[k] in old(memberOf(set.elems, x))))
+  ensures keeps_old: forall k in 0..old(len(set.elems)): memberOf(set.elems, old(set.elems[k]))
+  ensures has_v: memberOf(set.elems, v)
+
+func (*SortedSliceSet).Delete
+  requires set != nil && sortedStrict(set.elems)
+  apply_exit deleteSet(old(str(set.elems)), str(set.elems), i, v) when ok
+  ensures inv: sortedStrict(set.elems)
+  ensures only_old: forall k in 0..len(set.elems): set.elems[k] != v && (let x = set.elems[k] in old(memberOf(set.elems, x)))
+  ensures keeps_others: forall k in 0..old(len(set.elems)): old(set.elems[k]) == v || memberOf(set.elems, old(set.elems[k]))
+  ensures absent_unchanged: !local(ok) ==> set.elems == old(set.elems) && (forall k in 0..len(set.elems): set.elems[k] == old(set.elems[k]))
+  ensures v_gone: !memberOf(set.elems, v)
+
+func (*SortedSliceSet).Has
+  requires set != nil ==> sortedStrict(set.elems)
+  ensures member: ok <==> (set != nil && memberOf(set.elems, v))
+
+func (*SortedSliceSet).Len
+  ensures count: n == (set == nil ? 0 : len(set.elems))
+
+func (*SortedSliceSet).Values
+  ensures same: set == nil ? isnil(values) : values == set.elems
+
+func (*SortedSliceSet).Clear
+  ensures emptied: set != nil ==> len(set.elems) == 0 && sortedStrict(set.elems)
+
+func (*SortedSliceSet).Equal
+  ensures nil_cases: (set == nil || other == nil) ==> (ok <==> (set == nil && other == nil))
+  ensures same_elems: set != nil && other != nil ==>
+    (ok <==> (len(set.elems) == len(other.elems) && (forall k in 0..len(set.elems): set.elems[k] == other.elems[k])))
+
+func (*SortedSliceSet).Clone
+  requires set != nil ==> sortedStrict(set.elems)
+  ensures nil_clone: set == nil ==> clone == nil
+  ensures fresh_object: set != nil ==> clone != nil && fresh(clone)
+  ensures own_storage: set != nil ==> (len(clone.elems) == 0 || ref(clone.elems) != ref(set.elems))
+  ensures inv: set != nil ==> sortedStrict(clone.elems)
+  ensures origin_unchanged: set != nil ==> set.elems == old(set.elems) && (forall k in 0..len(set.elems): set.elems[k] == old(set.elems[k]))
+
+func (*SortedSliceSet).Range
+  requires set != nil ==> sortedStrict(set.elems)
+  ensures nil_no_calls: set == nil ==> cbcalls() == 0
+  ensures count: set != nil ==> cbcalls() <= len(set.elems)
+  ensures ascending: set != nil ==> (forall k in 0..cbcalls(): cbarg(k, 0) == set.elems[k])
+  ensures continued_while_true: forall k in 0..cbcalls() - 1: cbres(k)
+  ensures stops_only_on_false: set != nil && cbcalls() < len(set.elems) ==> cbcalls() >= 1 && !cbres(cbcalls() - 1)
+  loop 0
+    invariant cbcalls() == rangeindex + 1
+    invariant forall k in 0..cbcalls(): cbarg(k, 0) == set.elems[k]
+    invariant forall k in 0..cbcalls(): cbres(k)
+
+// ---------------------------------------------------------------------------
+// MapSet: the key set of the map.
+
+func NewMapSet
+  ensures created: set != nil && fresh(set) && !isnil(set.m)
+  ensures all_given: forall k in 0..len(values): haskey(set.m, values[k])
+  ensures only_given: forall x: haskey(set.m, x) ==> memberOf(values, x)
+  loop 0
+    invariant set != nil && !isnil(set.m) && fresh(set.m)
+    invariant forall k in 0..rangeindex + 1: haskey(set.m, values[k])
+    invariant forall x: haskey(set.m, x) ==> (exists k in 0..rangeindex + 1: values[k] == x)
+
+func (*MapSet).Add
+  requires set != nil && !isnil(set.m)
+  ensures members: forall x: haskey(set.m, x) <==> (old(haskey(set.m, x)) || x == v)
+  ensures same_map: set.m == old(set.m)
+
+func (*MapSet).Delete
+  ensures nil_noop: set == nil ==> true
+  ensures members: set != nil ==> (forall x: haskey(set.m, x) <==> (old(haskey(set.m, x)) && x != v))
+
+func (*MapSet).Clear
+  ensures emptied: set != nil && !isnil(set.m) ==> (forall x: !haskey(set.m, x)) && len(set.m) == 0
+
+func (*MapSet).Has
+  ensures member: ok <==> (set != nil && !isnil(set.m) && haskey(set.m, v))
+
+func (*MapSet).Len
+  ensures count: n == ((set == nil || isnil(set.m)) ? 0 : len(set.m))
+
+func (*MapSet).Clone
+  ensures nil_clone: set == nil ==> clone == nil
+  ensures independent: set != nil ==> clone != nil && fresh(clone) && (isnil(set.m) ? isnil(clone.m) : (fresh(clone.m) && clone.m != set.m))
+  ensures members: set != nil && !isnil(set.m) ==> (forall x: haskey(clone.m, x) <==> haskey(set.m, x)) && len(clone.m) == len(set.m)
+  ensures origin_unchanged: set != nil ==> set.m == old(set.m) && (forall x: haskey(set.m, x) <==> old(haskey(set.m, x)))
+
+func (*MapSet).Equal
+  ensures nil_cases: (set == nil || other == nil) ==> (ok <==> (set == nil && other == nil))
+
+func (*MapSet).Range
+  ensures nil_no_calls: set == nil ==> cbcalls() == 0
+  ensures only_members: set != nil ==> (forall k in 0..cbcalls(): haskey(set.m, cbarg(k, 0)))
+  ensures distinct: forall k in 0..cbcalls(): forall j in k + 1..cbcalls(): cbarg(k, 0) != cbarg(j, 0)
+  ensures continued_while_true: forall k in 0..cbcalls() - 1: cbres(k)
+  loop 0
+    invariant set != nil
+    invariant forall k in 0..cbcalls(): haskey(set.m, cbarg(k, 0)) && visited(cbarg(k, 0))
+    invariant forall x: visited(x) ==> (exists k in 0..cbcalls(): cbarg(k, 0) == x)
+    invariant forall k in 0..cbcalls(): forall j in k + 1..cbcalls(): cbarg(k, 0) != cbarg(j, 0)
+    invariant forall k in 0..cbcalls(): cbres(k)
+
+func (*MapSet).Values
+  ensures nil_values: set == nil ==> isnil(values)
+  ensures only_members: set != nil ==> (forall k in 0..len(values): haskey(set.m, values[k]))
+  ensures all_members: set != nil && !isnil(set.m) ==> (forall x: haskey(set.m, x) ==> memberOf(values, x))
+  loop 0
+    invariant set != nil && !isnil(values) && fresh(values)
+    invariant forall k in 0..len(values): haskey(set.m, values[k]) && visited(values[k])
+    invariant forall x: visited(x) ==> memberOf(values, x)
 @*/
